@@ -72,6 +72,7 @@ const Prelude = `
 (assert (forall ((x Iface)) (! (= (unbox_Iface (box_Iface x)) x) :pattern ((box_Iface x)))))
 (declare-fun implements (Int Int) Bool)
 (declare-fun ismapobj (Int) Bool)
+(declare-fun islocalobj (Int) Bool)
 (declare-fun band (Int Int) Int)
 (declare-fun bor (Int Int) Int)
 (declare-fun bxor (Int Int) Int)
